@@ -426,6 +426,32 @@ def declResult (pe : Option Bool) (d : Decl) (st : LState) (td : TypeDef) (m : T
                                      md := some { m with relations := AList.insert name rm m.relations } },
     currentRelation := none }
 
+/-- the type definition under construction after the declaration -/
+def declTypeDef (pe : Option Bool) (d : Decl) (st : LState) (td : TypeDef) (m : TypeMeta) : TypeDef :=
+  let ti := tiAfter (Def.restr d.body) []
+  let rm : RelMeta := { restr := ti, module := if st.isModular && pe.getD false then st.moduleName else "" }
+  { td with relations := AList.insert d.name.text (Def.den d.body) td.relations,
+            md := some { m with relations := AList.insert d.name.text rm m.relations } }
+
+theorem declResult_typeDef (pe d st td m) :
+    (declResult pe d st td m).currentTypeDef = some (declTypeDef pe d st td m) := by
+  simp only [declResult, declTypeDef]
+
+theorem declResult_types (pe d st td m) : (declResult pe d st td m).types = st.types := by
+  simp only [declResult]; split <;> rfl
+theorem declResult_conds (pe d st td m) : (declResult pe d st td m).conds = st.conds := by
+  simp only [declResult]; split <;> rfl
+theorem declResult_currentRelation (pe d st td m) : (declResult pe d st td m).currentRelation = none := by
+  simp only [declResult]
+
+/-- the error log grows by exactly one entry iff the relation is already defined in the type -/
+theorem declResult_errors (pe d st td m) :
+    (declResult pe d st td m).errors =
+      st.errors ++ (if AList.contains d.name.text td.relations
+        then [⟨0, 0, s!"'{d.name.text}' is already defined in '{td.name}'"⟩] else []) := by
+  simp only [declResult]
+  split <;> simp [notify, inRel, Tree.startPos]
+
 theorem decl_children_find (d : Decl) :
     (Tree.childRule? (Decl.tree d) "relationName") = some (.rule "relationName" 0 0 [] [d.name.tree]) := by
   simp [Decl.tree, Tree.childRule?, Tree.children, Tree.isRule, nl, ws, tokT, List.find?]
